@@ -5,14 +5,14 @@ All theorems are about the Model functions the driver executes (OFV/Model/C16.le
 (OFV/Spec/Basic.lean) that give the reductions their meaning.
 
 Not proved here (see OPEN_STATEMENTS in harness/c16.py): the operator-level statements
-(agreement on the code space, spectrum of the tapered operator, conjugation by exp(iθP),
-Fock-space soundness of freeze_orbitals for whole operators, SCBK sector): Spec oracle only.
+(spectrum of the tapered operator, freeze_orbitals with prune=True, SCBK sector): Spec oracle only.
 -/
 import OFV.Proofs.C16
 import OFV.Proofs.C16Pauli
 import OFV.Proofs.C16Loop
 import OFV.Proofs.C16Proj
 import OFV.Proofs.C16Embed
+import OFV.Proofs.C16Freeze
 
 namespace OFV.C16
 open OFV OFV.Spec OFV.Model OFV.Model.C16 OFV.C16P OFV.Generated
@@ -320,6 +320,61 @@ example : c35 * c35 + s45 * s45 = 1 ∧
       (Model.smul (c35 * c35 - s45 * s45) (rOdd eqTolerance exX0 [(exZ0, 1)])) ∧
     ExactAdd eqTolerance (rA eqTolerance exX0 [(exZ0, 1)] (c35 * c35 - s45 * s45))
       (rLast eqTolerance exX0 [(exZ0, 1)] (2 * c35 * s45)) := by
+  decide +kernel
+
+/-- **the scan of `freeze_orbitals` against the Fock-space Spec** (`Spec.actFTerm`), one product `τ`
+of ladder operators and one frozen mode `f` with occupation `o`.  `Y` is a basis state in which mode
+`f` is empty, `Y ⊕ o·2^f` the same state with the frozen occupation.  With
+`(new_term, n_swaps, annihilated, occupancy) = freezeScan (f, o) τ`:
+(i) if the code keeps the term (not annihilated, final occupancy `= o`), then `τ` acts on the frozen
+state exactly as `new_term` acts on `Y`, times `(-1)^(n_swaps + o · #{operators of new_term above f})`
+— the two signs the code applies — and the frozen mode keeps its occupation;
+(ii) if the code drops the term, `τ` annihilates the frozen state or moves it out of the frozen
+sector. -/
+theorem freeze_term_sound (f o : Nat) (ho : o < 2) (τ : Model.Term) (hτ : ∀ g ∈ τ, g.2 < 2) (Y : Nat)
+    (hY : Y.testBit f = false) :
+    (((freezeScan (f, o) τ).2.2.1 = false ∧ (freezeScan (f, o) τ).2.2.2 = o) →
+      match actFTerm (freezeScan (f, o) τ).1 Y with
+      | none => actFTerm τ (Y ^^^ (if o = 1 then 1 <<< f else 0)) = none
+      | some (ks, Ys) => Ys.testBit f = false ∧
+          actFTerm τ (Y ^^^ (if o = 1 then 1 <<< f else 0)) = some ((ks + ((freezeScan (f, o) τ).2.1 % 2).toNat +
+            o * ((freezeScan (f, o) τ).1.filter fun g => g.1 > f).length) % 2,
+            Ys ^^^ (if o = 1 then 1 <<< f else 0))) ∧
+    (¬ ((freezeScan (f, o) τ).2.2.1 = false ∧ (freezeScan (f, o) τ).2.2.2 = o) →
+      ∀ kb Xb, actFTerm τ (Y ^^^ (if o = 1 then 1 <<< f else 0)) = some (kb, Xb) →
+        Xb.testBit f = !decide (o = 1)) :=
+  freeze_term f o ho τ hτ Y hY
+
+/-- non-vacuity: `a†_2 a†_1 a_0 a_1` with mode 1 occupied on `|001⟩`: kept, one sign from the swaps -/
+example : (freezeScan (1, 1) [(2, 1), (1, 1), (0, 0), (1, 0)]).2.2.1 = false ∧
+    (freezeScan (1, 1) [(2, 1), (1, 1), (0, 0), (1, 0)]).2.2.2 = 1 ∧
+    actFTerm (freezeScan (1, 1) [(2, 1), (1, 1), (0, 0), (1, 0)]).1 1 = some (0, 4) ∧
+    actFTerm [(2, 1), (1, 1), (0, 0), (1, 0)] 3 = some (0, 6) := by decide
+
+/-- **`freeze_orbitals_sound`** (whole operators, several frozen orbitals, `prune=False`) at the live
+tolerance: for distinct frozen orbitals, an operator whose actions are 0/1, and the exactness flag of
+the run `true` (every `tmp_operator +=` of every pass in the exact regime; reported by the driver
+for every generated input), the result reproduces the matrix elements of the input between the
+basis states that carry the frozen occupations:
+`⟨T| freeze_orbitals(A) |Y⟩ = ⟨T ⊕ occ| A |Y ⊕ occ⟩` for all `Y, T` with the frozen modes empty —
+the matrix elements of the shared Spec (`Spec.applyOp .fermion`). -/
+theorem freeze_orbitals_sound (tol : Rat) (A : Model.Op) (occupied unoccupied : List Nat)
+    (hnd : (occupied ++ unoccupied).Nodup) (hA : ∀ e ∈ A, ∀ g ∈ e.1, g.2 < 2)
+    (hex : (freezeOrbitalsX tol A occupied unoccupied false).2 = true) (Y T : Nat)
+    (hY : ∀ i ∈ occupied ++ unoccupied, Y.testBit i = false)
+    (hT : ∀ i ∈ occupied ++ unoccupied, T.testBit i = false) :
+    GV.coeff (applyOp .fermion (freezeOrbitals tol A occupied unoccupied false) [Y]) [T]
+      = GV.coeff (applyOp .fermion A [Y ^^^ occupied.foldr (fun i m => m ^^^ (1 <<< i)) 0])
+          [T ^^^ occupied.foldr (fun i m => m ^^^ (1 <<< i)) 0] :=
+  freeze_orbitals_den tol A occupied unoccupied hnd hA hex Y T hY hT
+
+/-- non-vacuity: `a†_2 a†_1 a_0 a_1 + 1/2 a†_0 a_0` with orbital 1 occupied and orbital 3 empty, at the
+live tolerance: the flag is `true` and the result is `a†_2 a_0 + 1/2 a†_0 a_0` (the swap sign and the
+occupied-orbital sign cancel) -/
+example : (freezeOrbitalsX eqTolerance [([(2, 1), (1, 1), (0, 0), (1, 0)], 1), ([(0, 1), (0, 0)], ⟨1/2, 0⟩)]
+      [1] [3] false).2 = true ∧
+    (freezeOrbitalsX eqTolerance [([(2, 1), (1, 1), (0, 0), (1, 0)], 1), ([(0, 1), (0, 0)], ⟨1/2, 0⟩)]
+      [1] [3] false).1 = [([(2, 1), (0, 0)], 1), ([(0, 1), (0, 0)], ⟨1/2, 0⟩)] := by
   decide +kernel
 
 end OFV.C16
